@@ -5,6 +5,7 @@ import (
 
 	"github.com/wundergraph/graphql-go-tools/v2/pkg/caching"
 	"github.com/wundergraph/graphql-go-tools/v2/pkg/engine/plan"
+	"github.com/wundergraph/graphql-go-tools/v2/pkg/engine/postprocess"
 )
 
 // Added by the verification overlay (declarations only).
@@ -18,3 +19,9 @@ func VerifWithResponseCache(cache caching.Cache, ttl time.Duration, onErr func(e
 
 // VerifPlannerConfig exposes the planner configuration for option toggling.
 func (e *Configuration) VerifPlannerConfig() *plan.Configuration { return &e.plannerConfig }
+
+// VerifAddPostProcessorOptions appends post processor options (e.g. switching
+// single fetch de-duplication off) to an engine.
+func (e *ExecutionEngine) VerifAddPostProcessorOptions(opts ...postprocess.ProcessorOption) {
+	e.postProcessorOptions = append(e.postProcessorOptions, opts...)
+}
